@@ -75,6 +75,7 @@ type spOpts struct {
 	method                                string
 	key                                   crypto.Signer
 	cert                                  *x509.Certificate
+	inters                                []*x509.Certificate
 }
 
 func defaultOpts() spOpts {
@@ -107,6 +108,7 @@ func buildSP(o spOpts) *saml.ServiceProvider {
 		ForceAuthn:            o.forceAuthn,
 		RequestedAuthnContext: o.authnCtx,
 		SignatureMethod:       o.method,
+		Intermediates:         o.inters,
 		IDPMetadata: &saml.EntityDescriptor{
 			EntityID: o.idpEntity,
 			IDPSSODescriptors: []saml.IDPSSODescriptor{{
